@@ -5,7 +5,7 @@
 package cli
 
 // Every function under contract in this package also serves the properties that depend on the whole package.
-//@ package-props C01
+//@ package-props C01 C12
 
 // Parsing, display and query-type lookup do not touch the caller's flag variables.
 // Their bodies (prototext parsing, client dialling, output formatting) are not verified.
